@@ -821,6 +821,10 @@ func (f *v38Fix) runConc(sc v38Scen, res *kit.Result) v38Rec {
 	return rec
 }
 
+// TestVerif_C38Build does nothing: props/C38.py runs it while TLC enumerates the scenarios, so that the test
+// binary's packages are compiled (build cache) by the time the vectors exist.
+func TestVerif_C38Build(t *testing.T) {}
+
 func TestVerif_C38(t *testing.T) {
 	res := kit.NewResult("one case = one TLC-enumerated scenario replayed into the real repository+cache stack: script (file type x operation x sequence of load/flip/trunc/rm/rmdir/delrepo/list steps) or concurrent schedule (file type x initial cache state x sequence of loader starts, gate releases, download failures and third-party deletions/corruptions); distinct by scenario; non-trivial when the cache was consulted in a state other than plain 'good' (damage applied, stale, cleared, concurrent download)")
 	defer res.Save("")
